@@ -132,7 +132,15 @@ impl Acc {
 }
 
 fn check_instant(ts: i64, trans: &[i64], zone: &str, acc: &mut Acc) {
-    let now = match Local.timestamp_opt(ts, 0) {
+    check_instant_ns(ts, 0, trans, zone, acc);
+    // one instant in sixteen also with a sub-second part: the boundary must not inherit it
+    if ts % 16 == 0 {
+        check_instant_ns(ts, 851_000_000, trans, zone, acc);
+    }
+}
+
+fn check_instant_ns(ts: i64, nanos: u32, trans: &[i64], zone: &str, acc: &mut Acc) {
+    let now = match Local.timestamp_opt(ts, nanos) {
         chrono::LocalResult::Single(t) => t,
         _ => return,
     };
@@ -358,6 +366,11 @@ fn sequences(zone: &str, tier: Tier, trans: &[i64], acc: &mut Acc) {
         if let Some(t) = trans.iter().find(|t| **t > utc(2024, 1, 1, 0, 0, 0)) {
             v.push(t - 3 * 3600 - 90);
         }
+        // ten minutes before each of the next two offset changes: the schedule lies in the first pass of a
+        // repeated interval, the arrival class "+1800 s" in the second one (lower wall-clock reading, later instant)
+        for t in trans.iter().filter(|t| **t > utc(2024, 1, 1, 0, 0, 0)).take(2) {
+            v.push(t - 600);
+        }
         v
     };
     let depth = tier.pick(3usize, 4usize);
@@ -366,7 +379,7 @@ fn sequences(zone: &str, tier: Tier, trans: &[i64], acc: &mut Acc) {
             for modulate in [false, true] {
                 for delay in [0u64, 30] {
                     // every sequence of arrival classes relative to the scheduled instant E: -1 s, exactly E, +1 s, a whole unit late
-                    let classes: [i64; 4] = [-1, 0, 1, unit_secs + 1];
+                    let classes: [i64; 5] = [-1, 0, 1, unit_secs + 1, 1800];
                     let total = classes.len().pow(depth as u32);
                     for code in 0..total {
                         acc.evals += 1;
